@@ -11,7 +11,9 @@ from rnaverif.runner import D, HarnessError, ShardResult, check_case, run_hypoth
 PROP_ID = "C16"
 LEVEL = "exploration"
 RULE = (
-    "Domains: (a) all matchings on <=N positions exhaustively (N=9 quick, 11 thorough); (b) Hypothesis blow-ups "
+    "Domains: (a) all matchings on <=N positions exhaustively (N=9 quick, 11 thorough); (a') every chord diagram on k chords written with one "
+    "unpaired nucleotide between endpoints, so k chords are k stems: all conflict-graph topologies AND all 5'->3' "
+    "stem orders with exactly k stems, k=5,6 quick (945 + 10395) and k=5,6,7 thorough (+135135); (b) Hypothesis blow-ups "
     "and path/star-shaped conflict graphs with components of <=6 (quick) / <=8 (thorough) stems and <=20000 "
     "expected notations. Oracle built WITHOUT permutations: per component all proper colourings that satisfy the "
     "greedy-stability (Grundy) condition, cartesian product over components; compared as sets of per-stem level "
@@ -107,6 +109,10 @@ def plan(tier, seed):
         N, K, maxcomp, hyp, shaped_n = 11, 64, 8, [(500, 10)] * 16, 600
     for k in range(K):
         specs.append({"kind": "exhaustive", "N": N, "slice": k, "of": K})
+    # every chord diagram on k spaced chords: all conflict-graph topologies and all stem orders with exactly k stems
+    for k, shards in ([(5, 2), (6, 14)] if tier == "quick" else [(5, 1), (6, 8), (7, 55)]):
+        for sl in range(shards):
+            specs.append({"kind": "chords", "k": k, "slice": sl, "of": shards})
     for idx, (n, m) in enumerate(hyp):
         specs.append({"kind": "blowup", "examples": n, "max_abstract": m, "maxcomp": maxcomp, "seed": seed * 1000 + idx})
     specs.append({"kind": "shaped", "examples": shaped_n, "maxcomp": maxcomp, "seed": seed * 1000 + 99})
@@ -140,6 +146,15 @@ def run_shard(spec) -> ShardResult:
                 idx += 1
         res.exhaustive = True
         res.extra["exhaustive_structures"] = res.evaluations
+    elif kind == "chords":
+        for idx, chords in enumerate(ssref.perfect_matchings(spec["k"])):
+            if idx % spec["of"] == spec["slice"]:
+                case = ssref.chord_structure(chords)
+                nt, labs = classify(case)
+                res.note_case(tj(case), nt, labs + [f"chord-diagram-k={spec['k']}"], sample_cap=1)
+                check_case(PROP_ID, oracle, case, res, to_json=tj)
+        res.exhaustive = True
+        res.extra[f"chord_diagrams_k{spec['k']}"] = res.evaluations
     elif kind == "blowup":
         strat = ssref.st_structures(max_abstract=spec["max_abstract"], min_abstract=2, max_stem=3).filter(_small(spec["maxcomp"]))
         run_hypothesis(PROP_ID, strat, oracle, seed=spec["seed"], max_examples=spec["examples"], result=res,
